@@ -107,6 +107,7 @@ type scenario struct {
 	FlagsHow int    // which public way sets the flags (vlib.SetFlagsVia)
 	Disturb  int    // which scratch record is printed right before the record under test (vlib.Disturb; 0 none)
 	Layout   string // the logger's own time layout (SetTimeFormat); "": none. It governs the record's time field only
+	Name     string // a logger name that needs quoting (\"\": the plain default names); the logger field is a string-like value like any other
 	How      int    // how the logger gets its format: 0 Set...Mode, 1 option of the package-level New, 2 option of New on a parent in another format, 3 With...Mode method
 	Thru     bool   // WriteThru with an explicit timestamp, else LogAttrs
 	Msg      string
@@ -161,6 +162,9 @@ func run(t vlib.TB, test string, sc scenario, attrsForThru slog.Attrs) {
 	default:
 		if sc.Named {
 			name = "svc-lf"
+			if sc.Name != "" {
+				name = sc.Name
+			}
 			lg = slog.New(name)
 		} else {
 			lg = slog.New()
@@ -255,6 +259,7 @@ func genScenario(t *rapid.T) (scenario, slog.Attrs) {
 	sc.FlagsHow = rapid.SampledFrom([]int{0, 0, 1, 2, 3, 4}).Draw(t, "flagsHow")
 	sc.Disturb = rapid.SampledFrom([]int{0, 0, 0, 1, 2, 3, 4, 5, 6}).Draw(t, "disturbance")
 	sc.Layout = rapid.SampledFrom([]string{"", "", "", time.Kitchen, time.Stamp, "15:04", "15:04:05.000"}).Draw(t, "ownTimeLayout")
+	sc.Name = rapid.SampledFrom([]string{"", "", "", "x\" level=\"error", "two\nlines", "tab\there", "back\\slash", "ctl\x01x", "\u00fcn\u00ef c\u00f6de", "sp ace", "eq=sign", "trailing\\"}).Draw(t, "loggerName")
 	sc.Msg = vlib.GenMsg().Draw(t, "msg")
 	if sc.Sev == slog.AlwaysLevel && strings.Trim(sc.Msg, " \t\r\n") == "" {
 		sc.Msg += "x" // a blank Print is delivered as a bare newline (property C02), not as a record
